@@ -11,7 +11,7 @@ from typing import Any, Callable, Dict, List, Optional
 
 import numpy
 
-from .. import core, model, seams
+from .. import prelude, core, model, seams
 from ..runner import NUMPOLY_DIR
 
 ID = "C11"
@@ -311,6 +311,22 @@ def generate(rs: int, tier: str, index: int) -> dict:
         nonconst = [i for i, e in enumerate(divisor["exponents"]) if sum(e)]
         divisor["coefficients"][nonconst[0]] = [1.5] * size
         step = {"id": 0, "k": "nonconst_div", "fn": fn, "a": _vals(ch.sub("a"), shape, "float"), "d": divisor}
+    elif ch.chance(0.08):
+        # history on one object: query, update the polynomial in place (copyto destination), query again
+        fn = ch.choice(["argmin", "argmax", "amax", "amin", "max", "min", "sum", "mean", "cumsum", "any"])
+        shape = ch.choice([(3,), (5,), (2, 3), (2, 2, 2)])
+        kind = _kind(ch)
+        step = {"id": 0, "k": "requery", "fn": fn, "first": dict(_vals(ch.sub("a"), shape, kind), dress=0), "second": _vals(ch.sub("b"), shape, kind),
+                "kwargs": _axis_kwargs(ch.sub("k"), shape, tuples=False) if fn != "cumsum" else {}, "via": ch.choice(["numpoly", "numpy"])}
+    elif ch.chance(0.08):
+        # the polynomial is its own output target: fn(p, c, out=p) and the augmented operators
+        # (only the forms numpoly's out= contract supports: plain constant operands whose keys the output already has,
+        #  called through numpoly; augmented operators and true_divide/remainder with out= are a separate, patchy API)
+        fn = ch.choice(["add", "subtract", "multiply", "floor_divide"])
+        shape = ch.choice([(3,), (2, 2), (2, 3)])
+        kind = _kind(ch)
+        step = {"id": 0, "k": "inplace", "fn": fn, "a": dict(_vals(ch.sub("a"), shape, kind), dress=0),
+                "b": dict(_vals(ch.sub("b"), shape if ch.chance(0.6) else (), kind, nonzero=True), dress=0), "form": "out"}
     else:
         fn = names[index % len(names)] if ch.chance(0.5) else ch.choice(names)
         if ch.chance(0.25):
@@ -321,7 +337,7 @@ def generate(rs: int, tier: str, index: int) -> dict:
                 "spelling": "numpoly" if fn == "full" else ch.choice(["numpoly", "numpoly", "numpy"])}
     allenvs = [(p, f) for p in POLICIES for f in FILLS]
     envs = [("stable", "zero")] + ch.sample([e for e in allenvs if e != ("stable", "zero")], 7 if tier == "thorough" else 2)
-    return {"property": ID, "run_seed": rs, "tier": tier, "envs": [list(e) for e in envs], "steps": [step]}
+    return {"property": ID, "run_seed": rs, "tier": tier, "prelude": prelude.gen_prelude(core.Chooser(rs, "prelude")), "envs": [list(e) for e in envs], "steps": [step]}
 
 
 # ---------------------------------------------------------------------------
@@ -436,6 +452,12 @@ class Runner:
                 return
             self.violate("nonconstant-divisor-raises", fn, sid, "returned a value for a non-constant polynomial divisor")
             return
+        if step["k"] == "requery":
+            self.do_requery(step)
+            return
+        if step["k"] == "inplace":
+            self.do_inplace(step)
+            return
         np_func = numpy.linalg.det if fn == "det" else getattr(numpy, fn)
         try:
             np_args = [_build(a, "numpy") for a in step["args"]]
@@ -490,6 +512,83 @@ class Runner:
             self.violate("environment-independent", fn, sid, f"results differ between environments {self.plan['envs']}", traits)
         self.events.append(["mirror", fn, fps[0] if fps else None])
 
+    def do_requery(self, step: dict) -> None:
+        import numpoly
+
+        sid, fn = step["id"], step["fn"]
+        first, second = model.build_array(step["first"]["const"]), model.build_array(step["second"]["const"])
+        kwargs = {k: _build(v, "numpy") for k, v in step["kwargs"].items()}
+        np_func = getattr(numpy, fn)
+        try:
+            want1, want2 = np_func(first, **kwargs), np_func(second, **kwargs)
+        except Exception:  # noqa: BLE001
+            self.bump("undecided:numpy-rejects-arguments")
+            return
+        for pol, fill in self.plan["envs"]:
+            with seams.Env(core.H(self.rs, pol, fill), sort=pol, fill=fill) as env:
+                env.begin_step(sid)
+                try:
+                    p = _dress(first.copy(), step["first"].get("dress", 0))
+                    func = getattr(numpoly, fn, None) or np_func
+                    got1 = _to_numpy(func(p, **kwargs))
+                    (numpoly.copyto if step["via"] == "numpoly" else numpy.copyto)(p, second)
+                    got2 = _to_numpy(func(p, **kwargs))
+                except Exception as exc:  # noqa: BLE001
+                    if not core.through_numpoly(exc, NUMPOLY_DIR):
+                        raise
+                    self.violate("raises-where-numpy-returns", fn, sid, f"[{pol}/{fill}] query/copyto/query: {type(exc).__name__}: {exc}", {"history": "requery"})
+                    continue
+            self.bump("decided")
+            self.sigs.add(f"requery|{core.H(core.jdump(step))}|{pol}|{fill}")
+            msg1 = _compare(want1, got1, fn in TYPED)
+            msg2 = _compare(want2, got2, fn in TYPED)
+            if msg1:
+                self.violate("matches-numpy", fn, sid, f"[{pol}/{fill}] first query: {msg1}", {"history": "requery"})
+            elif msg2:
+                self.violate("matches-numpy-after-update", fn, sid, f"[{pol}/{fill}] after copyto(p, new values) the same query gives {msg2}", {"history": "requery"})
+        self.events.append(["requery", fn])
+
+    def do_inplace(self, step: dict) -> None:
+        import numpoly
+        import operator
+
+        sid, fn = step["id"], step["fn"]
+        a, b = model.build_array(step["a"]["const"]), model.build_array(step["b"]["const"])
+        np_func = getattr(numpy, fn)
+        iops = {"add": operator.iadd, "subtract": operator.isub, "multiply": operator.imul, "floor_divide": operator.ifloordiv, "true_divide": None, "remainder": None}
+        ref = a.copy()
+        try:
+            with numpy.errstate(all="ignore"):
+                np_func(ref, b, out=ref)
+        except Exception:  # noqa: BLE001
+            self.bump("undecided:numpy-rejects-arguments")
+            return
+        form = step["form"] if iops.get(fn) is not None else "out"
+        for pol, fill in self.plan["envs"]:
+            with seams.Env(core.H(self.rs, pol, fill), sort=pol, fill=fill) as env:
+                env.begin_step(sid)
+                try:
+                    p = _dress(a.copy(), step["a"].get("dress", 0))
+                    c = _dress(b.copy(), step["b"].get("dress", 0))
+                    with numpy.errstate(all="ignore"):
+                        if form == "out":
+                            res = getattr(numpoly, fn)(p, c, out=p)
+                        else:
+                            res = iops[fn](p, c)
+                    got = _to_numpy(res)
+                    got_p = _to_numpy(p)
+                except Exception as exc:  # noqa: BLE001
+                    if not core.through_numpoly(exc, NUMPOLY_DIR):
+                        raise
+                    self.violate("raises-where-numpy-returns", fn, sid, f"[{pol}/{fill}] {form} form with the polynomial as its own output: {type(exc).__name__}: {exc}", {"history": "inplace", "form": form})
+                    continue
+            self.bump("decided")
+            self.sigs.add(f"inplace|{core.H(core.jdump(step))}|{pol}|{fill}")
+            msg = _compare(ref, got, False) or _compare(ref, got_p, False)
+            if msg:
+                self.violate("matches-numpy", fn, sid, f"[{pol}/{fill}] {fn}(p, c, {'out=p' if form == 'out' else 'augmented operator'}): {msg}", {"history": "inplace", "form": form})
+        self.events.append(["inplace", fn, form])
+
     @staticmethod
     def _traits(step: dict, want: Any) -> dict:
         """Vocabulary for known-findings matching (fixed here, see known_findings.json)."""
@@ -532,11 +631,16 @@ def execute(plan: dict) -> dict:
     runner = Runner(plan)
     with warnings.catch_warnings():
         warnings.simplefilter("ignore")
+        prelude.run_prelude(plan.get("prelude"), runner.stats)
         runner.run()
     return {"violations": runner.violations, "events": runner.events, "stats": runner.stats, "sigs": sorted(runner.sigs)}
 
 
 def simplify(plan: dict):
+    if plan.get("prelude"):
+        yield dict(plan, prelude=None)
+        for i in range(len(plan["prelude"])):
+            yield dict(plan, prelude=plan["prelude"][:i] + plan["prelude"][i + 1:] or None)
     if len(plan["envs"]) > 1:
         for env in plan["envs"]:
             yield dict(plan, envs=[env])
